@@ -9,6 +9,8 @@ is finite and closed under the transitions, this covers histories of every lengt
 """
 from __future__ import annotations
 
+import os
+
 import copy
 from typing import Any
 
@@ -185,12 +187,24 @@ def explore_termencoder(col: Any, it: Interp, table: str, size: int, max_states:
     dec0 = k.new(K.DE, "Decoder", adapter=k.new(K.GP, "GenericTriplesAdapter", popts))
     enc0, dec0, fz0, _ = _canon(enc0, dec0)
     seen = {fz0}
-    work = [(enc0, dec0, [])]
+    level = [(enc0, dec0, [])]
+    nxt: list = []
+    depth = 0
+    closed = True
+    import time as _time
+
+    t0 = _time.time()
+    budget_s = float(os.environ.get("JSTAT_C05_TE_BUDGET", "150"))
     transitions = 0
     rule = "C05.FIXPOINT.term-encoder"
     construct = f"pyjelly.serialize.encode.TermEncoder.{'encode_iri' if table == 'prefix' else 'encode_literal'}<->pyjelly.parse.decode.Decoder"
-    while work:
-        enc, dec, hist = work.pop()
+    # breadth first by history length: when auxiliary state kept beside the lookups (a memo of every key seen, ...) makes
+    # the closure too large for the budget, every history up to the completed length has still been analysed
+    while level:
+        if not nxt and level and depth >= 4 and (_time.time() - t0 > budget_s or len(seen) > max_states):
+            closed = False
+            break
+        enc, dec, hist = level.pop()
         _, _, _, present = _canon(enc, dec)
         present = [p_ for p_ in present if not p_.endswith("#n")]
         keys_present = sorted({p_.split("#")[0] for p_ in present})
@@ -224,10 +238,13 @@ def explore_termencoder(col: Any, it: Interp, table: str, size: int, max_states:
             e3, d3, fz, _ = _canon(e2, d2)
             if fz not in seen:
                 seen.add(fz)
-                if len(seen) > max_states:
-                    raise AnalysisError(f"C05: more than {max_states} states for TermEncoder {table} S={size}")
-                work.append((e3, d3, hist + [key]))
-    return {"role": f"{table}@TermEncoder", "size": size, "states": len(seen), "transitions": transitions}
+                nxt.append((e3, d3, hist + [key]))
+        if not level:
+            level, nxt = nxt, []
+            depth += 1
+            if level and depth < 4 and (_time.time() - t0 > 4 * budget_s):
+                raise AnalysisError(f"C05: TermEncoder {table} S={size}: not even histories of length 4 fit the budget ({len(seen)} states)")
+    return {"role": f"{table}@TermEncoder", "size": size, "states": len(seen), "transitions": transitions, "closed": closed, "all_histories_up_to_length": depth}
 
 
 class _Collector:
@@ -281,6 +298,9 @@ def check(chk: Check) -> None:
             chk.fail(rule, inst, construct, msg, detail)
         if not res["fails"] and role.endswith("@TermEncoder"):
             chk.ok("C05.FIXPOINT.term-encoder", f"{role} S={s_}", {k_: v for k_, v in res.items() if k_ != "fails"})
+            if not res.get("closed", True):
+                chk.note(f"{role} S={s_}: the reachable set was not closed within the budget ({res['states']} states); every history of length <= {res['all_histories_up_to_length']} over the key alphabet was analysed instead")
+                chk.undecided.append(f"{role} S={s_}: histories longer than {res['all_histories_up_to_length']} (state kept beside the lookup tables makes the joint state space too large to close)")
         elif not res["fails"]:
             chk.ok("C05.FIXPOINT.mirror", f"{role} S={s_}", {k_: v for k_, v in res.items() if k_ != "fails"})
             chk.ok("C05.TABLE.range", f"{role} S={s_}", {"transitions_checked": res["transitions"], "ids_within": [0, s_]})
